@@ -460,6 +460,26 @@ func (cl *k11Cluster) gate(r *k11Req) string {
 	return ""
 }
 
+// replState: where the replication pipeline stands (diagnosis of an inconclusive wait)
+func (cl *k11Cluster) replState() string {
+	var sb strings.Builder
+	mgr := cl.leader.inst.slock.replicationManager
+	mgr.glock.Lock()
+	fmt.Fprintf(&sb, "leader: ring seq=%d serverActiveCount=%d channels=%d\n", mgr.bufferQueue.seq, atomic.LoadUint32(&mgr.serverActiveCount), len(mgr.serverChannels))
+	for i, ch := range mgr.serverChannels {
+		fmt.Fprintf(&sb, "  server channel %d: pushed=%d sent=%d acks read=%d pulledState=%d cursor seq=%d written=%v\n", i, ch.state.pushCount, ch.state.sendCount, ch.state.ackCount, atomic.LoadUint32(&ch.pulledState), ch.bufferCursor.seq, ch.bufferCursor.writed)
+	}
+	mgr.glock.Unlock()
+	for i, f := range cl.fol {
+		if cc := f.inst.slock.replicationManager.clientChannel; cc != nil {
+			fmt.Fprintf(&sb, "follower %d: received=%d replayed=%d appended=%d acks written=%d\n", i, cc.state.recvCount, cc.state.replayCount, cc.state.appendCount, cc.state.ackCount)
+		} else {
+			fmt.Fprintf(&sb, "follower %d: no client channel\n", i)
+		}
+	}
+	return sb.String()
+}
+
 func (cl *k11Cluster) proxyLogs() string {
 	var sb strings.Builder
 	for i, p := range cl.prox {
@@ -512,7 +532,7 @@ func (cl *k11Cluster) settle() (bool, string) {
 			return false, ""
 		}
 		if time.Now().After(deadline) {
-			return false, fmt.Sprintf("ack-required request #%d unanswered after the watchdog although no follower is stalled\n%s", pend[0].Idx, cl.proxyLogs())
+			return false, fmt.Sprintf("ack-required request #%d unanswered after the watchdog although no follower is stalled\n%s%s", pend[0].Idx, cl.replState(), cl.proxyLogs())
 		}
 		time.Sleep(200 * time.Microsecond)
 	}
@@ -654,7 +674,11 @@ func (cl *k11Cluster) step(op k11Op) string {
 					mgr.glock.Lock()
 					nch := len(mgr.serverChannels)
 					mgr.glock.Unlock()
-					if nch <= cl.alive() {
+					// ... and the sender goroutine of the cut connection must be gone: while it still counts as active,
+					// WakeupServerChannel believes every channel is awake and does not wake the sleeping survivor, so the
+					// next record stays in the ring (lost wake-up in replication - C09's domain; seen as a ~0.1 % inconclusive)
+					quiet := atomic.LoadUint32(&mgr.serverActiveCount) == 0
+					if nch <= cl.alive() && (quiet || time.Now().After(deadline.Add(-k11Watch+200*time.Millisecond))) {
 						break
 					}
 					if time.Now().After(deadline) {
